@@ -75,6 +75,30 @@ func H_C02_struct() {
 	vxrt.Assert(vxrt.FSStamp() == stamp, "C02:no-write")
 }
 
+// H_C02_standalone: a standalone snapshot and a received value that differ in
+// any byte (a trailing newline, a CR, ...): exactly one Error, nothing written.
+func H_C02_standalone() {
+	vxrt.CI(false)
+	vxrt.EnvPresent("NO_COLOR")
+	dir := vxrt.Dir()
+	c := WithConfig(Dir(dir))
+	n := vxrt.Param("n", 3)
+	f0 := vxrt.Text("stored", vxrt.Len("n0", 0, n))
+	f1 := vxrt.Text("received", vxrt.Len("n1", 0, n))
+	vxrt.Assume(vxrt.And(plainText(f0), plainText(f1)))
+	vxrt.Assume(vxrt.And(asciiOnly(f0), asciiOnly(f1)))
+	vxrt.Assume(differs(f0, f1))
+	writeFile(dir+"/TestS_1.snap", f0)
+	stamp := vxrt.FSStamp()
+	t := newT("TestS")
+	c.MatchStandaloneSnapshot(t, f1)
+	t.end()
+	vxrt.Assert(len(t.errors) == 1, "C02:one-error")
+	vxrt.Assert(len(t.logs) == 0, "C02:no-log")
+	vxrt.Assert(vxrt.FSStamp() == stamp, "C02:no-write")
+	vxrt.Assert(vxrt.Eq(readFile(dir+"/TestS_1.snap"), f0), "C02:file-unchanged")
+}
+
 // k1EscapeAlias is the class of known finding K1: the two texts become equal
 // when every whole line "/-/-/-/" is read as "---" (the escape token is itself
 // a legal line, and comparison happens after unescaping both sides).
